@@ -136,7 +136,7 @@ func (fx *FuncVC) defineRec(ps *PredSpec, args []Val, e *Env) *recDef {
 	if fx.recDefs == nil {
 		fx.recDefs = map[string]*recDef{}
 	}
-	if ps.Decreases == nil {
+	if ps.Decreases == nil && ps.Rec {
 		cfail("recursive spec function %s needs a decreases clause (spec func f(..) T decreases m = body)", ps.Name)
 	}
 	def := &recDef{name: "rec_" + sanitize(ps.Name), hsorts: map[string]Sort{}}
@@ -175,9 +175,11 @@ func (fx *FuncVC) defineRec(ps *PredSpec, args []Val, e *Env) *recDef {
 			cfail("recursive spec function %s must return a scalar", ps.Name)
 		}
 		body = sc.T
-		m := n.child()
-		m.recFuel = nil
-		measure = m.intT(ps.Decreases)
+		if ps.Decreases != nil {
+			m := n.child()
+			m.recFuel = nil
+			measure = m.intT(ps.Decreases)
+		}
 		if len(sym.names) == len(def.heaps) {
 			break
 		}
